@@ -1,7 +1,614 @@
 package stream
 
-import "falcosim/sim/worker"
+import (
+	"fmt"
+	"reflect"
+	"sort"
+	"strings"
+	"sync"
+	"unicode/utf8"
 
-func c01NumEnum(tier string) int                  { return 0 }
-func c01EnumPrefix(tier string, i int) []uint64   { return nil }
-func runC01(c *worker.Ctx)                        {}
+	"falcosim/sim/astcmp"
+	"falcosim/sim/simio"
+	"falcosim/sim/vclgen"
+	"falcosim/sim/worker"
+
+	"github.com/pkg/errors"
+	"github.com/ysugimoto/falco/v2/ast"
+	"github.com/ysugimoto/falco/v2/lexer"
+	"github.com/ysugimoto/falco/v2/parser"
+	"github.com/ysugimoto/falco/v2/token"
+)
+
+// ---------------------------------------------------------------------------
+// C01 — lexing and parsing are total, and diagnostics are located in the input
+//
+// System under simulation: the real lexer reading through its bufio.Reader
+// from a simio stream; the real parser on top, through falco's own
+// parser.Tokenizer seam (a counting wrapper that forwards to the real lexer).
+// The simulator decides how the source is delivered (chunking, zero reads),
+// where it ends (clean EOF, cut, error at any offset) and how it is corrupted.
+// ---------------------------------------------------------------------------
+
+type entry struct {
+	name string
+	run  func(p *parser.Parser) (any, error)
+}
+
+var entries = []entry{
+	{"ParseVCL", func(p *parser.Parser) (any, error) { return p.ParseVCL() }},
+	{"ParseSnippetVCL", func(p *parser.Parser) (any, error) { return p.ParseSnippetVCL() }},
+	{"ParseVCLOrSnippet", func(p *parser.Parser) (any, error) { return p.ParseVCLOrSnippet() }},
+}
+
+type passOutcome struct {
+	tree     any
+	err      error
+	panicV   any
+	stack    string
+	spin     string // "" | "tokens" | "reads"
+	calls    int
+	shorts   int
+	rendered string
+}
+
+func (o passOutcome) class() string {
+	switch {
+	case o.panicV != nil:
+		return "panic"
+	case o.spin != "":
+		return "spin"
+	case o.err != nil:
+		return "error"
+	}
+	return "tree"
+}
+
+func runEntry(e entry, data []byte, plan simio.Plan, c *worker.Ctx) (out passOutcome) {
+	r := simio.NewReader(data, plan, c.T)
+	r.SpinLimit = 1000
+	var tk *countingTokenizer
+	defer func() {
+		out.shorts = r.ShortReads
+		if tk != nil {
+			out.calls = tk.calls
+		}
+		if v := recover(); v != nil {
+			out.stack = innermostFalcoFrame()
+			switch v {
+			case errTokenBudget:
+				out.spin = "tokens"
+				out.stack = spinFrame()
+			case simio.SpinSentinel:
+				out.spin = "reads"
+				out.stack = spinFrame()
+			default:
+				out.panicV = v
+			}
+		}
+	}()
+	tk = newCounting(lexer.New(r), len(r.Delivered()), false)
+	p := parser.New(tk)
+	out.tree, out.err = e.run(p)
+	if out.err == nil {
+		out.rendered = renderTree(out.tree)
+	}
+	return
+}
+
+func renderTree(t any) (s string) {
+	defer func() {
+		if recover() != nil {
+			s = "<String() panicked>"
+		}
+	}()
+	switch v := t.(type) {
+	case *ast.VCL:
+		if v == nil {
+			return "<nil>"
+		}
+		return v.String()
+	case []ast.Statement:
+		var b strings.Builder
+		for _, st := range v {
+			b.WriteString(st.String())
+		}
+		return b.String()
+	}
+	return ""
+}
+
+type lexOutcome struct {
+	tokens []token.Token
+	panicV any
+	stack  string
+	spin   string
+	shorts int
+}
+
+func runLex(data []byte, plan simio.Plan, c *worker.Ctx) (out lexOutcome) {
+	r := simio.NewReader(data, plan, c.T)
+	r.SpinLimit = 1000
+	defer func() {
+		out.shorts = r.ShortReads
+		if v := recover(); v != nil {
+			out.stack = innermostFalcoFrame()
+			switch v {
+			case simio.SpinSentinel:
+				out.spin = "reads"
+			default:
+				out.panicV = v
+			}
+		}
+	}()
+	l := lexer.New(r)
+	budget := 64 * (len(r.Delivered()) + 64)
+	for i := 0; ; i++ {
+		if i > budget {
+			out.spin = "tokens"
+			out.stack = "lexer.(*Lexer).NextToken"
+			return
+		}
+		t := l.NextToken()
+		out.tokens = append(out.tokens, t)
+		if t.Type == token.EOF {
+			return
+		}
+	}
+}
+
+// textAt returns the source text starting at a 1-based (line, rune column),
+// and whether the position lies inside the input.
+type located struct {
+	lines []string
+}
+
+func newLocated(src []byte) *located { return &located{lines: strings.Split(string(src), "\n")} }
+
+func (l *located) at(line, col int) (string, bool) {
+	if line < 1 || line > len(l.lines) || col < 1 {
+		return "", false
+	}
+	ln := l.lines[line-1]
+	if line < len(l.lines) {
+		ln += "\n" // the terminator is a character of its line (the lexer counts it)
+	}
+	// rune column → byte offset (invalid bytes count as one rune each, as in the lexer)
+	off := 0
+	for i := 1; i < col; i++ {
+		if off >= len(ln) {
+			return "", false
+		}
+		_, sz := utf8.DecodeRuneInString(ln[off:])
+		off += sz
+	}
+	// off == len(ln) is "one past the last character of the line"; it lies
+	// inside the input for the last line (end of input) and, in the lexer's
+	// coordinates, for a final line that ends with a newline.
+	if off == len(ln) && line < len(l.lines) && !(line == len(l.lines)-1 && l.lines[len(l.lines)-1] == "") {
+		return "", false
+	}
+	return ln[off:], true
+}
+
+// checkToken is oracle O3. The per-kind convention was measured on the
+// fault-free corpus (every .vcl in the repository and generated programs):
+// punctuation, operators, identifiers, keywords and numbers start with their
+// literal; strings at their opening quote; long strings at `{`; comments at
+// their marker; LF at the newline; CLOSE_LONG_STRING at the closing `}`.
+func checkToken(t token.Token, loc *located, atEOFOK bool) (what string) {
+	if t.Type == "" {
+		return "untyped"
+	}
+	if t.Type == token.EOF {
+		if t.Line < 1 || t.Line > len(loc.lines)+1 {
+			return "eof-line-out-of-range"
+		}
+		return ""
+	}
+	at, ok := loc.at(t.Line, t.Position)
+	if !ok {
+		return "out-of-range"
+	}
+	exp := t.Literal
+	switch t.Type {
+	case token.STRING:
+		exp = `"`
+	case token.OPEN_LONG_STRING:
+		exp = "{"
+	case token.COMMENT:
+		if len(t.Literal) > 0 {
+			exp = t.Literal[:1]
+		}
+	case token.LF:
+		exp = "\n"
+	case token.CLOSE_LONG_STRING:
+		// an unterminated long string is closed by a synthetic token at the
+		// end of the input, which designates nothing
+		if at == "" || strings.HasPrefix(at, "}") {
+			return ""
+		}
+		if atEOFOK {
+			return ""
+		}
+		return "not-at-text"
+	case token.ILLEGAL:
+		// designates the offending character
+		if at != "" {
+			return ""
+		}
+		return "not-at-text"
+	}
+	if !strings.HasPrefix(at, exp) {
+		return "not-at-text"
+	}
+	return ""
+}
+
+// checkErrorToken is oracle O4's location rule. The parser re-anchors the
+// token of compound expressions at the start of their left operand, so an
+// error token designates text when it lies inside the input and either shows
+// its own literal there or sits at the start of a token the lexer produced
+// (or at the end of input).
+func checkErrorToken(t token.Token, loc *located, toks []token.Token) string {
+	w := checkToken(t, loc, true)
+	if w != "not-at-text" {
+		return w
+	}
+	at, _ := loc.at(t.Line, t.Position)
+	if at == "" {
+		return ""
+	}
+	for _, x := range toks {
+		if x.Line == t.Line && x.Position == t.Position && x.Type != "" {
+			return ""
+		}
+	}
+	return w
+}
+
+type c01Source struct {
+	id   string
+	text []byte
+}
+
+func c01DrawSource(c *worker.Ctx) c01Source {
+	switch c.T.Draw(3) {
+	case 0:
+		cs := Corpus()
+		s := cs[c.T.Draw(len(cs))]
+		return c01Source{s.Name, []byte(s.Text)}
+	case 1:
+		o := vclgen.Default()
+		o.Comments = c.T.Bool(1, 2)
+		o.MaxDecls = 3
+		return c01Source{"gen/snippet", []byte(vclgen.Snippet(c.T, o))}
+	default:
+		o := vclgen.Default()
+		o.Comments = c.T.Bool(1, 2)
+		return c01Source{"gen/program", []byte(vclgen.Program(c.T, o))}
+	}
+}
+
+var controlSplices = []string{"pragma optional_param x 1;", "pragma optional_param x 1", "pragma", "pragma ", "C!", "W!", "C", "W!;", "pragma a b c d e f g;", "\npragma x\n"}
+
+var (
+	prefOnce sync.Once
+	prefCum  []int
+	prefSrc  []source
+)
+
+func prefixSpace(tier string) ([]source, []int) {
+	prefOnce.Do(func() {
+		total := 0
+		for _, s := range Corpus() {
+			limit := 4 << 10
+			if tier == "thorough" {
+				limit = 64 << 10
+			} else if !strings.HasPrefix(s.Name, "hand/") {
+				continue
+			}
+			if len(s.Text) > limit {
+				continue
+			}
+			prefSrc = append(prefSrc, s)
+			total += len(s.Text) + 1
+			prefCum = append(prefCum, total)
+		}
+	})
+	return prefSrc, prefCum
+}
+
+func c01NumEnum(tier string) int {
+	_, cum := prefixSpace(tier)
+	if len(cum) == 0 {
+		return 0
+	}
+	return cum[len(cum)-1]
+}
+
+func c01EnumPrefix(tier string, i int) []uint64 {
+	_, cum := prefixSpace(tier)
+	idx := sort.SearchInts(cum, i+1)
+	off := i
+	if idx > 0 {
+		off = i - cum[idx-1]
+	}
+	return []uint64{3, uint64(idx), uint64(off)}
+}
+
+func runC01(c *worker.Ctx) {
+	res := c.Res
+	mode := c.T.Draw(6)
+	var src c01Source
+	var data []byte
+	plan := simio.Plan{Chunk: "all", Terminal: "eof"}
+	mutation := ""
+	switch mode {
+	case 3: // exact prefix of a corpus source (enumerated completely in the exhaustive sub-space)
+		srcs, _ := prefixSpace(c.Tier)
+		if len(srcs) == 0 {
+			srcs = Corpus()
+		}
+		s := srcs[c.T.Draw(len(srcs))]
+		k := c.T.Draw(len(s.Text) + 1)
+		src = c01Source{s.Name, []byte(s.Text)}
+		data = src.text[:k]
+		mutation = fmt.Sprintf("prefix[:%d]", k)
+		if k < len(s.Text) {
+			res.Fault("truncate")
+		}
+	case 0:
+		src = c01DrawSource(c)
+		data = src.text
+		plan = simio.DrawPlan(c.T, len(data), false)
+	case 1:
+		src = c01DrawSource(c)
+		data = src.text
+		plan = simio.DrawPlan(c.T, len(data), true)
+		if plan.Terminal == "eof" {
+			plan.Terminal, plan.CutAt = "cut", c.T.Draw(len(data)+1)
+		}
+		res.Fault("stream_" + plan.Terminal)
+	case 2:
+		src = c01DrawSource(c)
+		data, mutation = simio.Corrupt(c.T, src.text)
+		res.Fault("corrupt_" + strings.SplitN(mutation, "@", 2)[0])
+		plan = simio.DrawPlan(c.T, len(data), c.T.Bool(1, 3))
+	case 4:
+		src = c01DrawSource(c)
+		data, mutation = tokenMutation(c, src.text)
+		res.Fault("token_" + strings.SplitN(mutation, "@", 2)[0])
+		plan = simio.DrawPlan(c.T, len(data), false)
+	default:
+		src = c01DrawSource(c)
+		data, mutation = spliceControl(c, src.text)
+		res.Fault("splice_control")
+		plan = simio.DrawPlan(c.T, len(data), c.T.Bool(1, 3))
+	}
+	c.Logf("mode=%d src=%s len=%d mutation=%s plan=%s", mode, src.id, len(data), mutation, plan)
+
+	// What the consumer can have seen:
+	delivered := data
+	if plan.Terminal != "eof" && plan.CutAt < len(delivered) {
+		delivered = delivered[:plan.CutAt]
+	}
+	loc := newLocated(delivered)
+	base := simio.Plan{Chunk: "all", Terminal: "eof"}
+	nontrivialPlan := !plan.Trivial()
+
+	// ---- lexing -----------------------------------------------------------
+	lx := runLex(delivered, base, c)
+	outcomeSig := []string{}
+	switch {
+	case lx.panicV != nil:
+		res.Violate("C01/O1-no-panic", "C01/lex-panic:"+lx.stack+":"+panicClass(lx.panicV), fmt.Sprintf("lexer panicked: %v\ninput (%s, %s):\n%s", lx.panicV, src.id, mutation, clipSrc(string(delivered))))
+	case lx.spin != "":
+		res.Violate("C01/O2-terminates", "C01/lex-spin:"+lx.stack, fmt.Sprintf("lexer does not reach EOF (%s budget) on %s %s:\n%s", lx.spin, src.id, mutation, clipSrc(string(delivered))))
+	default:
+		for _, t := range lx.tokens {
+			if w := checkToken(t, loc, true); w != "" {
+				key := "C01/token-location:" + string(t.Type) + ":" + w
+				if w == "untyped" {
+					key = "C01/token-untyped:" + untypedWhat(t, loc, lx.tokens)
+				}
+				res.Violate("C01/O3-token-located", key, fmt.Sprintf("token {%s} of %s %s: %s\ninput:\n%s", t.String(), src.id, mutation, w, clipSrc(string(delivered))))
+				break
+			}
+		}
+	}
+	if nontrivialPlan && len(res.Violations) == 0 {
+		lp := runLex(data, plan, c)
+		if lp.shorts > 0 {
+			res.Probe("short_reads_delivered")
+		}
+		if lp.panicV != nil || lp.spin != "" || !reflect.DeepEqual(lp.tokens, lx.tokens) {
+			res.Violate("C01/O5-delivery", "C01/delivery:lexer", fmt.Sprintf("token trace depends on delivery %s (same %d bytes): panic=%v spin=%q tokens %d vs %d; first difference %s", plan, len(delivered), lp.panicV, lp.spin, len(lp.tokens), len(lx.tokens), firstTokenDiff(lp.tokens, lx.tokens)))
+		}
+	}
+
+	// ---- parsing ----------------------------------------------------------
+	for _, e := range entries {
+		o := runEntry(e, delivered, base, c)
+		outcomeSig = append(outcomeSig, o.class())
+		switch {
+		case o.panicV != nil:
+			res.Violate("C01/O1-no-panic", "C01/parse-panic:"+o.stack+":"+panicClass(o.panicV), fmt.Sprintf("%s panicked: %v\ninput (%s, %s):\n%s", e.name, o.panicV, src.id, mutation, clipSrc(string(delivered))))
+		case o.spin != "":
+			res.Violate("C01/O2-terminates", "C01/parse-spin:"+o.stack, fmt.Sprintf("%s asked for more than 64·(n+64) tokens / kept reading after EOF (%s) — it does not terminate\ninput (%s, %s):\n%s", e.name, o.spin, src.id, mutation, clipSrc(string(delivered))))
+		case o.err != nil:
+			res.Probe("parse_error_returned")
+			var pe *parser.ParseError
+			cause := errors.Cause(o.err)
+			if !errors.As(cause, &pe) {
+				res.Violate("C01/O4-error-located", "C01/error-unlocated:"+errClass(o.err), fmt.Sprintf("%s returned an error that is not a *parser.ParseError and carries no location: %v\ninput (%s, %s):\n%s", e.name, o.err, src.id, mutation, clipSrc(string(delivered))))
+			} else if w := checkErrorToken(pe.Token, loc, lx.tokens); w != "" {
+				key := "C01/error-location:" + string(pe.Token.Type) + ":" + w
+				if w == "untyped" {
+					key = "C01/error-token-untyped:" + untypedWhat(pe.Token, loc, nil)
+				}
+				res.Violate("C01/O4-error-located", key, fmt.Sprintf("%s: error %q carries token {%s}: %s\ninput (%s, %s):\n%s", e.name, pe.Message, pe.Token.String(), w, src.id, mutation, clipSrc(string(delivered))))
+			} else {
+				res.Probe("parse_error_located")
+			}
+		default:
+			if isNilTree(o.tree) && e.name != "ParseSnippetVCL" {
+				res.Violate("C01/O4-tree-xor-error", "C01/no-tree-no-error:"+e.name, fmt.Sprintf("%s returned neither a tree nor an error\ninput:\n%s", e.name, clipSrc(string(delivered))))
+			}
+			res.Probe("parse_tree")
+		}
+		if nontrivialPlan {
+			op := runEntry(e, data, plan, c)
+			if op.class() != o.class() || (o.err != nil && op.err != nil && o.err.Error() != op.err.Error()) ||
+				(o.class() == "tree" && (op.rendered != o.rendered || astcmp.Diff(o.tree, op.tree) != "")) {
+				res.Violate("C01/O5-delivery", "C01/delivery:"+e.name, fmt.Sprintf("%s outcome depends on delivery %s (same %d bytes): %s/%v vs all-at-once %s/%v", e.name, plan, len(delivered), op.class(), op.err, o.class(), o.err))
+			}
+		}
+	}
+	if mode == 1 || mode == 3 {
+		// did the cut land inside a token? (reach probe)
+		if len(delivered) > 0 && len(delivered) < len(src.text) {
+			a, b := src.text[len(delivered)-1], src.text[len(delivered)]
+			if !isSpace(a) && !isSpace(b) {
+				res.Probe("cut_inside_token")
+			}
+		}
+	}
+	res.Nontrivial = nontrivialPlan || mutation != ""
+	planClass := plan.Chunk + "/" + plan.Terminal
+	if mode == 3 {
+		res.Sig = fmt.Sprintf("pre|%s|%d", src.id, len(delivered))
+	} else {
+		res.Sig = fmt.Sprintf("%d|%s|%s|%s|%s|%x", mode, src.id, planClass, strings.SplitN(mutation, "@", 2)[0], strings.Join(outcomeSig, ","), hash32(delivered))
+	}
+	if c.Render {
+		res.Rendering = map[string]any{"mode": mode, "source": src.id, "mutation": mutation, "plan": plan.String(), "delivered_bytes": len(delivered), "tokens": len(lx.tokens), "outcomes": map[string]string{"ParseVCL": outcomeSig[0], "ParseSnippetVCL": outcomeSig[1], "ParseVCLOrSnippet": outcomeSig[2]}, "input": clipSrc(string(delivered))}
+	}
+}
+
+func hash32(b []byte) uint32 {
+	var h uint32 = 2166136261
+	for _, x := range b {
+		h ^= uint32(x)
+		h *= 16777619
+	}
+	return h
+}
+
+func isSpace(b byte) bool { return b == ' ' || b == '\n' || b == '\t' || b == '\r' }
+
+func isNilTree(t any) bool {
+	switch v := t.(type) {
+	case *ast.VCL:
+		return v == nil
+	case nil:
+		return true
+	}
+	return false
+}
+
+// untypedWhat names the character a typeless token stands for: the token has
+// no position, so take the source character between its neighbours.
+func untypedWhat(t token.Token, loc *located, all []token.Token) string {
+	if t.Literal != "" {
+		return t.Literal
+	}
+	// find it in the token list and look at the text after the previous token
+	for i, x := range all {
+		if x.Type == "" && i > 0 {
+			at, ok := loc.at(all[i-1].Line, all[i-1].Position)
+			if ok {
+				rest := strings.TrimLeft(strings.TrimPrefix(at, all[i-1].Literal), " \t\r")
+				for _, op := range []string{"<<", ">>", "|", "&", "^", "*"} {
+					if strings.HasPrefix(rest, op) {
+						return op
+					}
+				}
+			}
+			break
+		}
+		if x.Type == "" && i == 0 {
+			src := strings.TrimLeft(strings.Join(loc.lines, "\n"), " \t\r")
+			for _, op := range []string{"<<", ">>", "|", "&", "^", "*"} {
+				if strings.HasPrefix(src, op) {
+					return op
+				}
+			}
+		}
+	}
+	return "?"
+}
+
+func firstTokenDiff(a, b []token.Token) string {
+	for i := 0; i < len(a) && i < len(b); i++ {
+		if a[i] != b[i] {
+			return fmt.Sprintf("#%d {%s} vs {%s}", i, a[i].String(), b[i].String())
+		}
+	}
+	return "length"
+}
+
+// tokenMutation deletes or duplicates one token of the source (located with
+// the real lexer under a budget).
+func tokenMutation(c *worker.Ctx, src []byte) ([]byte, string) {
+	lx := runLex(src, simio.Plan{Chunk: "all", Terminal: "eof"}, c)
+	loc := newLocated(src)
+	type span struct{ off, n int }
+	var spans []span
+	// byte offsets of line starts
+	lineOff := make([]int, len(loc.lines)+1)
+	for i, l := range loc.lines {
+		lineOff[i+1] = lineOff[i] + len(l) + 1
+	}
+	for _, t := range lx.tokens {
+		if t.Type == token.EOF || t.Type == token.LF || t.Type == "" {
+			continue
+		}
+		at, ok := loc.at(t.Line, t.Position)
+		if !ok {
+			continue
+		}
+		lineLen := len(loc.lines[t.Line-1])
+		if t.Line < len(loc.lines) {
+			lineLen++
+		}
+		off := lineOff[t.Line-1] + (lineLen - len(at))
+		n := len(t.Literal)
+		if t.Type == token.STRING {
+			n += 2
+		}
+		if off < 0 || off+n > len(src) || n == 0 {
+			continue
+		}
+		spans = append(spans, span{off, n})
+	}
+	if len(spans) == 0 {
+		return src, "none"
+	}
+	s := spans[c.T.Draw(len(spans))]
+	if c.T.Bool(1, 2) {
+		out := append(append([]byte{}, src[:s.off]...), src[s.off+s.n:]...)
+		return out, fmt.Sprintf("delete@%d+%d", s.off, s.n)
+	}
+	out := append(append(append([]byte{}, src[:s.off+s.n]...), ' '), src[s.off:]...)
+	return out, fmt.Sprintf("duplicate@%d+%d", s.off, s.n)
+}
+
+// spliceControl inserts a Fastly control token / pragma form at a tape-chosen
+// whitespace boundary (or at the very end).
+func spliceControl(c *worker.Ctx, src []byte) ([]byte, string) {
+	var cand []int
+	for i, b := range src {
+		if isSpace(b) {
+			cand = append(cand, i)
+		}
+	}
+	cand = append(cand, len(src))
+	pos := cand[c.T.Draw(len(cand))]
+	if c.T.Bool(1, 3) {
+		pos = len(src)
+	}
+	ins := controlSplices[c.T.Draw(len(controlSplices))]
+	out := append(append(append([]byte{}, src[:pos]...), []byte(" "+ins)...), src[pos:]...)
+	return out, fmt.Sprintf("splice@%d(%q)", pos, ins)
+}
